@@ -3,22 +3,80 @@ import PlaybackProofs.RecorderNodes
 interception flag; entries written under an input key / an output-result key survive to the end of the operation. -/
 namespace PlaybackModel.Recorder
 
+theorem recordOutput_bump_inactive {t : St} (cfg : OutCfg) (n : Nat) (args : Args) (h : t.active = none) :
+    (recordOutput (bump t cfg.alias) cfg n args).active = none := by
+  have hb : (bump t cfg.alias).active = none := by simpa using h
+  unfold recordOutput
+  split
+  · rw [doDiscard_inactive hb]; exact hb
+  · split
+    · simpa using hb
+    · rw [write_inactive _ _ hb]; exact hb
+
+theorem doSetEnabled_active_none {t : St} (b : Bool) (h : t.active = none) : (doSetEnabled t b).active = none := by
+  rw [doSetEnabled_inactive b h]; exact h
+
 theorem exec_active_none (p : Prog) (s : St) (h : s.active = none) : (exec s p).1.active = none :=
   exec_preserves (fun t => t.active = none)
     (by intro t e h; simpa using h) (by intro t b h; simpa using h)
     (by intro t h; rw [doDiscard_inactive h]; exact h) (by intro t h; rw [doForce_inactive h]; exact h)
     (by intro t key v h; rw [doRecordData_inactive _ _ h]; exact h)
-    (by
-      intro t cfg n args h _
-      have hb : (bump t cfg.alias).active = none := by simpa using h
-      unfold recordOutput
-      split
-      · rw [doDiscard_inactive hb]; exact hb
-      · split
-        · simpa using hb
-        · rw [write_inactive _ _ hb]; exact hb)
+    (by intro t cfg n args h _; exact recordOutput_bump_inactive cfg n args h)
     (by intro cfg args k0 t o h; rw [afterInput_inactive _ _ _ _ h]; exact h)
-    (by intro a n t o h; rw [afterOutput_inactive _ _ _ h]; exact h) p s h
+    (by intro a n t o h; rw [afterOutput_inactive _ _ _ h]; exact h)
+    (by intro t b h; exact doSetEnabled_active_none b h) p s h
+
+theorem doDiscard_active (s : St) : (doDiscard s).active = none := by
+  unfold doDiscard; split <;> simp_all [resetActive]
+
+theorem doSetEnabled_false_active (s : St) : (doSetEnabled s false).active = none := by
+  rw [doSetEnabled_false]; exact doDiscard_active s
+
+theorem doSetEnabled_true_of_enabled {s : St} (h : s.enabled = true) : doSetEnabled s true = s := by
+  rw [doSetEnabled_true]; cases s; simp_all
+
+/-- if a recording is still active after a switch flip, the flip was `enable_recording()` and touched nothing else -/
+theorem doSetEnabled_of_active {s : St} {b : Bool} {a : Active} (h : (doSetEnabled s b).active = some a) :
+    doSetEnabled s b = { s with enabled := true } ∧ s.active = some a := by
+  cases b
+  · rw [doSetEnabled_false_active] at h; cases h
+  · rw [doSetEnabled_true] at h ⊢; exact ⟨rfl, h⟩
+
+/-- **a recording in flight implies the switch is on**, whatever the running code does with the switch: switching
+recording off aborts the recording (F15) -/
+theorem exec_enabledInv (p : Prog) (s : St) (h : s.enabled = true ∨ s.active = none) :
+    (exec s p).1.enabled = true ∨ (exec s p).1.active = none :=
+  exec_preserves (fun t => t.enabled = true ∨ t.active = none)
+    (by intro t e h; simpa using h) (by intro t b h; simpa using h)
+    (by intro t h; exact .inr (doDiscard_active t))
+    (by intro t h; simpa using h)
+    (by intro t key v h
+        rcases h with h | h
+        · exact .inl (by simpa using h)
+        · exact .inr (by rw [doRecordData_inactive _ _ h]; exact h))
+    (by intro t cfg n args h _
+        rcases h with h | h
+        · exact .inl (by simpa using h)
+        · exact .inr (recordOutput_bump_inactive cfg n args h))
+    (by intro cfg args k0 t o h
+        rcases h with h | h
+        · exact .inl (by simpa using h)
+        · exact .inr (by rw [afterInput_inactive _ _ _ _ h]; exact h))
+    (by intro a n t o h
+        rcases h with h | h
+        · exact .inl (by simpa using h)
+        · exact .inr (by rw [afterOutput_inactive _ _ _ h]; exact h))
+    (by intro t b h
+        cases b
+        · exact .inr (doSetEnabled_false_active t)
+        · exact .inl (by simp))
+    p s h
+
+theorem exec_enabled_of_active (p : Prog) (s : St) (he : s.enabled = true) {a1 : Active}
+    (h : (exec s p).1.active = some a1) : (exec s p).1.enabled = true := by
+  rcases exec_enabledInv p s (.inl he) with h' | h'
+  · exact h'
+  · rw [h'] at h; cases h
 
 @[simp] theorem getD_cons (k : Key) (v : RVal) (d : Data) (k' : Key) :
     getD ((k, v) :: d) k' = if k = k' then some v else getD d k' := rfl
@@ -27,16 +85,13 @@ theorem write_active (s : St) (k : Key) (v : RVal) :
     (write s k v).active = s.active.map (fun a => { a with data := (k, v) :: a.data }) := by
   unfold write; split <;> simp_all
 
-theorem doDiscard_active (s : St) : (doDiscard s).active = none := by
-  unfold doDiscard; split <;> simp_all [resetActive]
-
 theorem doForce_active' (s : St) : (doForce s).active = s.active := doForce_active s
 
 /-- pass-through execution: under the interception flag (or with nothing to intercept) `exec` only ever applies
 `addJournal`, `doDiscard`, `doForce`, `doRecordData` -/
 theorem exec_flagged_preserves (Q : St → Prop)
     (hJ : ∀ s e, Q s → Q (addJournal s e)) (hD : ∀ s, Q s → Q (doDiscard s)) (hF : ∀ s, Q s → Q (doForce s))
-    (hR : ∀ s key v, Q s → Q (doRecordData s key v)) :
+    (hR : ∀ s key v, Q s → Q (doRecordData s key v)) (hE : ∀ s b, Q s → Q (doSetEnabled s b)) :
     ∀ (p : Prog) (s : St), s.inInt = true → Q s → Q (exec s p).1 ∧ (exec s p).1.inInt = true := by
   intro p
   induction p with
@@ -44,6 +99,7 @@ theorem exec_flagged_preserves (Q : St → Prop)
   | discard k ih => intro s hi h; rw [exec]; exact ih _ (by simpa using hi) (hD s h)
   | force k ih => intro s hi h; rw [exec]; exact ih _ (by simpa using hi) (hF s h)
   | recordData key v k ih => intro s hi h; rw [exec]; exact ih _ (by simpa using hi) (hR s key v h)
+  | setEnabled b k ih => intro s hi h; rw [exec]; exact ih _ (by simpa using hi) (hE s b h)
   | playData key k ih => intro s hi h; rw [exec]; exact ih _ s hi h
   | callIn cfg args body k ihb ihk =>
     intro s hi h
@@ -81,7 +137,8 @@ theorem extractOutputs_outArgs (al : String) (n : Nat) (v : RVal) (d : Data) :
 per-alias counter are as before, entries present before are still there with the same value, and the mode is unchanged -/
 theorem exec_flagged_body (body : Prog) (s : St) (a : Active) (hi : s.inInt = true) (hp : s.playback = none)
     (ha : s.active = some a) :
-    (exec s body).1.inInt = true ∧ (exec s body).1.playback = none ∧ (exec s body).1.enabled = s.enabled ∧
+    (exec s body).1.inInt = true ∧ (exec s body).1.playback = none ∧
+    (s.enabled = true → ∀ a1, (exec s body).1.active = some a1 → (exec s body).1.enabled = true) ∧
     ∀ a1, (exec s body).1.active = some a1 →
       extractOutputs a1.data = extractOutputs a.data ∧ (exec s body).1.counter = s.counter ∧ a1.id = a.id ∧
       a1.params = a.params ∧
@@ -112,12 +169,17 @@ theorem exec_flagged_body (body : Prog) (s : St) (a : Active) (hi : s.inInt = tr
           rw [if_neg (fun hc => hk key hc.symm)]
           exact this
       · exact h a1 h1)
+    (by
+      intro t b h a1 h1
+      obtain ⟨e, h0⟩ := doSetEnabled_of_active h1
+      rw [e]; exact h a1 h0)
     body s hi (by
       intro a1 h1
       rw [ha] at h1
       cases h1
       exact ⟨rfl, rfl, rfl, rfl, fun _ _ _ h => h⟩)
-  refine ⟨this.2, by rw [(exec_frame body s).2.2.2.2.2.2]; exact hp, (exec_frame body s).1, this.1⟩
+  refine ⟨this.2, by rw [(exec_frame body s).2.2.2.2.2.2]; exact hp,
+    fun he a1 h1 => exec_enabled_of_active body s he h1, this.1⟩
 
 /-! ### entries survive to the end of the operation -/
 
@@ -140,6 +202,7 @@ theorem Prog.All_mono {Qi Qi' : InCfg → Args → Prog → Prop} {Qo Qo' : OutC
   | discard k ih => exact ih
   | force k ih => exact ih
   | recordData _ _ k ih => exact ih
+  | setEnabled _ k ih => exact ih
   | playData _ k ih => exact fun h o => ih o (h o)
   | callIn cfg args body k ihb ihk => exact fun h => ⟨hi _ _ _ h.1, ihb h.2.1, fun o => ihk o (h.2.2 o)⟩
   | callOut cfg args body k ihb ihk => exact fun h => ⟨ho _ _ _ h.1, ihb h.2.1, fun o => ihk o (h.2.2 o)⟩
@@ -213,6 +276,9 @@ theorem input_stable (w : Key → RVal) (k0 : Key) (hk0 : ∃ al t a kw, k0 = .i
           simp only [hta, Option.map_some, Option.some.injEq] at h1
           subst h1
           simpa using h2 a0 hta)
+    (by
+      intro t b h a h1
+      exact h a (doSetEnabled_of_active h1).2)
     p hF s h
 
 theorem recordOutput_counter_of_active (s : St) (cfg : OutCfg) (n : Nat) (args : Args) (a : Active)
@@ -332,6 +398,12 @@ theorem outres_stable (al : String) (n : Nat) (v : RVal) (p : Prog)
             subst h1
             omega
           · exact this.1)
+    (by
+      intro t b h
+      refine ⟨by simpa using h.1, ?_⟩
+      intro a h1
+      obtain ⟨e, h0⟩ := doSetEnabled_of_active h1
+      rw [e]; exact h.2 a h0)
     p hwf s ⟨hp, h⟩
   exact fun a' h' => (this.2 a' h').1
 
